@@ -169,12 +169,34 @@ def run_one(ctx, c, opts, kind, front):
     ctx.count(("double" if c.double else "single") + ":nta%d:%s:%s" % (len(c.trans_att), "front+match" if front else "refs", kind))
 
 
+def reuse_object_case(ctx, rng, double):
+    """one Dataset object calibrated, then given the data of a second (equally model-consistent) measurement campaign IN PLACE — new
+    intensities and new bath series under the same names and the same section definitions — and calibrated again: the second result has
+    to be the truth of the second campaign (nothing remembered from the first call)"""
+    import random
+    seed = rng.randrange(2**31)
+    kw = dict(double=double, nx=rng.randint(16, 24), nt=rng.randint(2, 4), span=rng.choice([50.0, 200.0]), noise=0.0, n_baths=2, n_stretch=3,
+              nta=0, n_match=0, var_kind="float", irregular=False)
+    c1 = fibre.make_case(random.Random(seed), bath_temps=[8.0, 31.0], **kw)
+    c2 = fibre.make_case(random.Random(seed), bath_temps=[17.0, 45.0], **kw)
+    if c1.sections != c2.sections or not np.array_equal(c1.x, c2.x):
+        ctx.skip("re-use case: the two campaigns do not share the layout")
+        return
+    out1, _ = calib.run_real(c1)
+    for k in c2.ds.data_vars:          # the same object receives the second campaign
+        c1.ds[k] = c2.ds[k]
+    c2.ds = c1.ds
+    run_one(ctx, c2, {}, "free:same-object-second-campaign", False)
+    ctx.count("same Dataset object calibrated twice with other reference series")
+
+
 def batch(ctx, n):
     done = tries = 0
     for double in (True, False):
         run_one(ctx, *build_lead_in_match(ctx.rng, double))
         run_one(ctx, *build_unordered_pairs(ctx.rng, double))
         run_one(ctx, fibre.splice_at_last_reference_case(ctx.rng, double, noise=0.0), {}, "free:splice-at-last-reference", True)
+        reuse_object_case(ctx, ctx.rng, double)
     while done < n and tries < 20 * n:
         tries += 1
         b = build(ctx.rng, ctx.quick)
